@@ -317,7 +317,7 @@ def r5_server_context(ck, cx):
         member = None
         for ev in p.ev:
             if ev.kind == 'cond':
-                if U(ev.node) == 'self.single':
+                if U(ev._sub) == 'self.single':
                     single = ev.a
                 elif isinstance(ev._sub, ast.Compare) and isinstance(ev._sub.ops[0], (ast.In, ast.NotIn)) and \
                         U(ev._sub.comparators[0]) in ('self._slaves', 'self._slaves.keys()'):
@@ -354,13 +354,14 @@ def r5_server_context(ck, cx):
                    or (ev.kind == 'del' and 'self._slaves' in U(ev.node))]
             single = None
             for ev in p.ev:
-                if ev.kind == 'cond' and U(ev.node).replace('not ', '') == 'self.single':
-                    single = ev.a if not U(ev.node).startswith('not ') else (not ev.a)
+                if ev.kind == 'cond' and U(ev._sub).replace('not ', '') == 'self.single':
+                    single = ev.a if not U(ev._sub).startswith('not ') else (not ev.a)
             cs = []
             for ev in p.ev:
-                if ev.kind == 'cond' and 'single' not in U(ev.node):
-                    # interval conditions are on the *parameter* (before the single remap)
-                    cs += constraints(ev.node, ev.a, nz)
+                if ev.kind == 'cond' and 'single' not in U(ev._sub):
+                    # interval conditions on the unit id (locals substituted: a renamed / remapped local still
+                    # denotes the parameter on the multi-unit path)
+                    cs += constraints(ev._sub, ev.a, nz)
             got = _canon_set(cs)
             lo, hi = UNIT_ID_RANGE
             exp = {cstr(('ge', P(nz, '%s - %d' % (sl, lo)))), cstr(('ge', P(nz, '%d - %s' % (hi, sl))))}
